@@ -18,6 +18,7 @@ package object
 //@   requires [never_parse_a_tag_at_the_end] len(a0) > 0
 
 //@ func ExtractHeaderAndPayload
+//@   mode int
 //@   sweep
 //@   loop 1 invariant 0 <= offset && offset <= len(data)
 //@   ensures [payload_prefix_is_a_suffix_of_the_input] err == nil ==> len(res1) <= len(data)
